@@ -3,9 +3,10 @@
    target directory; not part of the proof build. *)
 From Coq Require Extraction.
 From Coq Require Import ExtrOcamlBasic.
-From CP Require Import Bytes Runtime TimePb.
+From CP Require Import Bytes Runtime TimePb Schema Codec Decode.
 Extraction Language OCaml.
 Extraction "model.ml"
   Bytes.enc_varint Bytes.dec_varint Bytes.n2b Bytes.b2n
   Runtime.Sov Runtime.Soz Runtime.protowire_size Runtime.EncodeVarint Runtime.Skip
-  TimePb.TsAdd TimePb.TsAddStd TimePb.TsCompare.
+  TimePb.TsAdd TimePb.TsAddStd TimePb.TsCompare
+  Codec.pulsar_marshal Codec.msg_size Codec.emit Codec.key_ltb Decode.pulsar_unmarshal Decode.empty_msg.
